@@ -713,6 +713,7 @@ class ExecResult:
     pruned: bool
     anomalies: list[dict]
     nsteps: int
+    leftovers: list[dict] = dataclasses.field(default_factory=list)
 
 
 class ExecHarness:
@@ -942,10 +943,21 @@ class ExecHarness:
                    "msg": str(rr.exc)[:200] if rr.exc is not None else "",
                    "reason": rr.reason, "at": rr.at} for rr in res]
         ch = self.world.chooser
+        left = []
+        if not self.world.pruned:
+            for r, rr in enumerate(res):
+                if rr.status == "ok" and self.world.pending(r):
+                    left.append({"what": "request_left_pending", "rank": r,
+                                 "requests": [[q.src, q.tag] for q in self.world.pending(r)]})
+            if all(rr.status == "ok" for rr in res):
+                for (src, dst), msgs in sorted(self.world.net.items()):
+                    if msgs:
+                        left.append({"what": "message_never_received", "src": src, "dst": dst,
+                                     "tags": [m.tag for m in msgs]})
         return ExecResult(status, self.outputs, self.events,
                           list(getattr(ch, "taken", [])), list(getattr(ch, "widths", [])),
                           self.states, self.edges, self.world.stuck, self.world.pruned,
-                          self.world.anomalies, self.world.nsteps)
+                          self.world.anomalies, self.world.nsteps, left)
 
 
 def run_once(pl: Pipeline, inst: dict, vt: ValueTable, chooser: Any, **kw: Any) -> ExecResult:
